@@ -304,7 +304,7 @@ def traced_jobs(ctx):
     pairs = [(a, b) for a in codes for b in codes if a != b]
     ctx.rng.shuffle(pairs)
     special = [('DLW', 'DLE'), ('DLE', 'DLW'), ('PLA', 'PLB'), ('ANA', 'ANB'), ('NRA', 'NRB'), ('BOS', 'JFK'), ('MID', 'LAX'), ('LAX', 'MID'),
-               ('HIG', 'LAX'), ('LAX', 'HIG'), ('EQA', 'EQB'), ('MRA', 'MRB'), ('MRB', 'MRA'), ('DEN', 'MID')]  # fmt: skip
+               ('HIG', 'LAX'), ('LAX', 'HIG'), ('EQA', 'EQB'), ('MRA', 'MRB'), ('MRB', 'MRA'), ('DEN', 'MID'), ('LOW', 'MRB'), ('MRB', 'LOW')]  # fmt: skip
     fr = [(0.01, 0.01, 0.01), (0.05, 0.05, 0.05), (1 / 30.5, 1 / 7.5, 1 / 51.5), (0.02, 0.013, 0.03), (1 / 2.5, 1 / 2.5, 1 / 1.5)]
     jobs = []
     npairs = 25 if ctx.quick else len(pairs)
@@ -398,7 +398,7 @@ def run(ctx: Ctx):
     ctx.rule = (
         'A: every (n_climb, n_cruise, n_descent) of the TLC case set (2..101, around the 50-point growth boundary) flown exactly with a '
         'phase-constant table (20:1 glide, so the descent overshoots the destination) on an equatorial, a meridional, a transcontinental and an antimeridian route, positions included; B: B738 flights over seeded airport pairs of the test airport file and '
-        '14 special routes (antimeridian, polar, near-antipodal, very short, high elevation) x load factors x 5 step-fraction triples x given '
+        '16 special routes (antimeridian, polar, near-antipodal, very short, high elevation, an airport below sea level) x load factors x 5 step-fraction triples x given '
         'starting masses x mass iteration x descent-rate-scaled tables (0.6: overshoot, 1.5) x aircraft ceilings around the elevation of a high airport, each validated as a trace; non-trivial = a phase does not end on the 50-point boundary, or special route'
     )
     ctx.assumptions += [
@@ -448,7 +448,7 @@ def run(ctx: Ctx):
     for job, res in zip(tj, pmap(run_traced, tj)):
         if 'machinery' in res:
             raise MachineryError('flight worker failed: ' + res['machinery'])
-        ctx.case_done({'traced': job}, nontrivial=job[0][0] in ('DLW', 'DLE', 'PLA', 'ANA', 'NRA', 'MID', 'HIG', 'LAX') or job[2] != (0.01, 0.01, 0.01))
+        ctx.case_done({'traced': job}, nontrivial=job[0][0] in ('DLW', 'DLE', 'PLA', 'ANA', 'NRA', 'MID', 'HIG', 'LAX', 'LOW') or job[2] != (0.01, 0.01, 0.01))
         if 'rejected' in res:
             rejected[res['rejected']] = rejected.get(res['rejected'], 0) + 1
             continue
